@@ -339,13 +339,106 @@ type Watch struct {
 	log  []ValEvent
 	disp bool
 	n    atomic.Int64
+	gate *Gate // armed gate (nil if none), guarded by mu
 
 	released atomic.Bool
+	relOnce  sync.Once
+}
+
+// Gate holds one value callback of a Watch: the goroutine delivering the
+// callback (normally the resolver that is emitting the value, inside its
+// SetValues / AddValue call, with no lock of the system under test held) is
+// parked in the harness until the gate is opened. The callback is recorded
+// (log, current values, callback counter) before it parks, so a parked
+// callback is not "progress" and the parked goroutine (state "chan receive")
+// counts as parked for the stuck-state detector. Opening is decided by the
+// harness from conditions (Settle), never from durations.
+type Gate struct {
+	wa        *Watch
+	addedOnly bool
+	entered   chan struct{}
+	open      chan struct{}
+	once      sync.Once
+	ev        ValEvent
+}
+
+// Arm makes the next callback of the watch (the next value-added callback if
+// addedOnly) park at the returned gate. At most one gate is armed per watch:
+// arming again replaces a gate that was not entered yet (it is opened).
+func (wa *Watch) Arm(addedOnly bool) *Gate {
+	g := &Gate{wa: wa, addedOnly: addedOnly, entered: make(chan struct{}), open: make(chan struct{})}
+	wa.mu.Lock()
+	old := wa.gate
+	wa.gate = g
+	wa.mu.Unlock()
+	if old != nil {
+		old.Open()
+	}
+	return g
+}
+
+// Entered reports whether a callback is (or was) parked at the gate.
+func (g *Gate) Entered() bool {
+	select {
+	case <-g.entered:
+		return true
+	default:
+		return false
+	}
+}
+
+// Event returns the callback parked at the gate (valid once Entered).
+func (g *Gate) Event() ValEvent { return g.ev }
+
+// Open lets the parked callback return; a gate that was not entered yet is
+// disarmed. Idempotent.
+func (g *Gate) Open() {
+	g.wa.mu.Lock()
+	if g.wa.gate == g {
+		g.wa.gate = nil
+	}
+	g.wa.mu.Unlock()
+	g.once.Do(func() { close(g.open) })
+}
+
+// pass is called at the end of every callback of the watch.
+func (wa *Watch) pass(e *ValEvent) {
+	wa.mu.Lock()
+	g := wa.gate
+	if g != nil && (e.Added || !g.addedOnly) {
+		wa.gate = nil
+	} else {
+		g = nil
+	}
+	wa.mu.Unlock()
+	if g == nil {
+		return
+	}
+	g.ev = *e
+	close(g.entered)
+	<-g.open
 }
 
 // NewWatch adds the directive.
 func (w *World) NewWatch(src, dst peer.ID) (*Watch, error) {
-	wa := &Watch{W: w, Src: src, Dst: dst, cur: map[uint32]*ValEvent{}}
+	wa := w.PrepareWatch(src, dst)
+	if err := wa.Add(); err != nil {
+		return nil, err
+	}
+	return wa, nil
+}
+
+// PrepareWatch builds a Watch whose directive is not added yet (Watch.Add): a
+// gate can be armed on it before its first callback can happen. Add may
+// deliver the values an equivalent directive already has on the calling
+// goroutine, so an armed watch must be added from a goroutine of its own.
+func (w *World) PrepareWatch(src, dst peer.ID) *Watch {
+	return &Watch{W: w, Src: src, Dst: dst, cur: map[uint32]*ValEvent{}}
+}
+
+// Add adds the directive of a prepared watch (once).
+func (wa *Watch) Add() error {
+	w, src, dst := wa.W, wa.Src, wa.Dst
 	mk := func(added bool, av directive.AttachedValue) ValEvent {
 		e := ValEvent{Added: added, ValID: av.GetValueID()}
 		if ml, ok := av.GetValue().(link.MountedLink); ok && ml != nil {
@@ -368,6 +461,7 @@ func (w *World) NewWatch(src, dst peer.ID) (*Watch, error) {
 		wa.log = append(wa.log, e)
 		wa.mu.Unlock()
 		wa.n.Add(1)
+		wa.pass(&e)
 	}, func(av directive.AttachedValue) {
 		e := mk(false, av)
 		wa.mu.Lock()
@@ -375,6 +469,7 @@ func (w *World) NewWatch(src, dst peer.ID) (*Watch, error) {
 		wa.log = append(wa.log, e)
 		wa.mu.Unlock()
 		wa.n.Add(1)
+		wa.pass(&e)
 	}, func() {
 		wa.mu.Lock()
 		wa.disp = true
@@ -382,14 +477,28 @@ func (w *World) NewWatch(src, dst peer.ID) (*Watch, error) {
 	})
 	_, ref, err := w.Bus.AddDirective(link.NewEstablishLinkWithPeer(src, dst), h)
 	if err != nil {
-		return nil, err
+		return err
 	}
+	wa.mu.Lock()
 	wa.ref = ref
-	return wa, nil
+	wa.mu.Unlock()
+	if wa.released.Load() {
+		wa.relOnce.Do(ref.Release)
+	}
+	return nil
 }
 
 // Release drops the reference.
-func (wa *Watch) Release() { wa.released.Store(true); wa.ref.Release() }
+// (a watch whose Add has not returned yet is released as soon as it has).
+func (wa *Watch) Release() {
+	wa.released.Store(true)
+	wa.mu.Lock()
+	ref := wa.ref
+	wa.mu.Unlock()
+	if ref != nil {
+		wa.relOnce.Do(ref.Release)
+	}
+}
 
 // Released reports whether Release was called.
 func (wa *Watch) Released() bool { return wa.released.Load() }
